@@ -12,6 +12,7 @@ import VaxisModel.Props.C01Display
 import VaxisModel.Lemmas.C12Vocab
 import VaxisModel.Props.C01Clip
 import VaxisModel.Lemmas.C12Draw
+import VaxisModel.Lemmas.C12Replies
 import VaxisModel.Props.C05Draw
 
 namespace VaxisModel.Props.C12
@@ -502,5 +503,40 @@ theorem draw_shows_cursor (dec : String → G) (cw : String → Nat) (fi : Frame
     simp only [c1, Bool.and_self, if_true, hv, Bool.true_and, decide_eq_true_eq, c2, c3, hng, if_false]
   · rename_i hv
     simp [hc, hv]
+
+/-! ### The reply exchange -/
+
+open VaxisModel.Model.C12Replies VaxisModel.Lemmas.C12Replies in
+/-- **The start-up reply exchange, over the models, from ANY emulator state.** The emulator model run
+    over the sequences `sendQueries()` writes (`startupQueries`, compared with what the real Vaxis
+    writes on every run) never panics and replies exactly: DECRPM 2026 → 0, 2027 → 3, 2031 → 0, the
+    cursor position 1;1 after `CSI H`, the background colour (only with a host attached that knows
+    it), DA1 `? 62 ; 4 ; 22 c`. C03's model of `handleSequence` and of the collection loop of `New()`
+    turns these replies into: sixels, unicodeCore, (osc11 iff that colour reply came) — nothing else.
+    In particular the four capabilities the renderer consults are those of `emuCaps`, the capability
+    set of the composition theorem. -/
+theorem emu_caps_exact (hostBg : Option (Nat × Nat × Nat)) (e : Emu) :
+    ∃ e' rs caps, runQ hostBg e startupQueries = .ok (e', rs) ∧ capsFrom rs = .ok caps ∧
+      caps = { sixels := true, unicodeCore := true, osc11 := e.hasVx && hostBg.isSome } ∧
+      ({ rgb := caps.rgb, styledUnderlines := caps.styledUnderlines, explicitWidth := caps.explicitWidth,
+         sync := caps.synchronizedUpdate } : Caps) = emuCaps := by
+  obtain ⟨e', he⟩ := run_startup hostBg e
+  exact ⟨e', _, _, he, caps_of_startupReplies hostBg e, rfl, rfl⟩
+
+open VaxisModel.Model.C12Replies in
+/-- **What is not detected is not there**: in every state the emulator model ignores the modes Vaxis
+    asked about and did not detect (2026 synchronized output, 2031 colour-theme updates, 2048 in-band
+    resize: set and reset change nothing), the kitty keyboard protocol (`CSI ? u`, `CSI > n u`,
+    `CSI < u`, `CSI = n u`: no dispatch arm) and the explicit-width probe (OSC 66). What IS detected:
+    DA1 attribute 4 stands for the sixel DCS branch of `update()` (graphics are outside this model:
+    modelled-not-verified), DECRPM 2027 = 3 for the fact that `update()` receives whole grapheme
+    clusters (`EOp.print g w`). -/
+theorem undetected_is_ignored (e : Emu) (n : Int) (hn : n = 2026 ∨ n = 2031 ∨ n = 2048) (pm : List Model.Emu.Param) :
+    Model.Emu.emuStep e (.csi [63, 104] [(n, [])]) = .ok (e, 0) ∧
+    Model.Emu.emuStep e (.csi [63, 108] [(n, [])]) = .ok (e, 0) ∧
+    Model.Emu.emuStep e (.csi [63, 117] pm) = .ok (e, 0) ∧ Model.Emu.emuStep e (.csi [62, 117] pm) = .ok (e, 0) ∧
+    Model.Emu.emuStep e (.csi [60, 117] pm) = .ok (e, 0) ∧ Model.Emu.emuStep e (.csi [61, 117] pm) = .ok (e, 0) ∧
+    Model.Emu.emuStep e (.osc [54, 54, 59, 119, 61, 49, 59, 32] {}) = .ok (e, 0) := by
+  rcases hn with rfl | rfl | rfl <;> exact ⟨rfl, rfl, rfl, rfl, rfl, rfl, rfl⟩
 
 end VaxisModel.Props.C12
